@@ -6,7 +6,7 @@ from . import common as K
 
 PROP = "C05"
 RULE = ("cases = (symbol source, ~40 lookups): every non-emptied ELF / Mach-O / PE fixture (thin files; the debug-link companions are served from the same directory), ELF objects generated with gcc/ld from assembly (executables, and shared objects stripped down to .dynsym) with "
-        "arbitrary symbol layouts (sized, unsized, overlapping, NOTYPE-with-size, functions with FDEs in .eh_frame with and without a symbol, several text sections, non-zero base, with/without build id), generated Breakpad .sym files and generated jitdump files. "
+        "arbitrary symbol layouts and names (plain, Itanium C++, Rust legacy / v0 and OCaml manglings, with and without a leading underscore; sized, unsized, overlapping, NOTYPE-with-size, functions with FDEs in .eh_frame with and without a symbol, several text sections, non-zero base, with/without build id), generated Breakpad .sym files and generated jitdump files. "
         "Lookups at entry addresses, address+size-1, address+size, in gaps, below the first and above the last symbol, random 32-bit values - in all three address forms where the source supports them "
         "(relative, stated virtual address = base + relative, file offset via the segment ranges); each batch is repeated from 8 threads in different orders on one shared symbol map. "
         "non-trivial = a lookup lands in dead space after an end marker, or a file-offset lookup succeeds")
@@ -30,9 +30,17 @@ def _gen_elf(rng, d, k):
     """assemble + link a small ELF with an arbitrary symbol layout; returns path or None"""
     asm = [".text", ".globl _start", "_start:", "  nop"]
     nf = rng.range(2, 9)
+    used_names = set()
     for i in range(nf):
         kind = rng.choice(["sized", "sized", "unsized", "overlap", "notype", "local"])
-        name = "fn_%d_%d" % (k, i)
+        # plain names and names in the mangling schemes demangle_any knows, with and without the usual leading underscore
+        name = rng.choice(["fn_%d_%d" % (k, i)] * 3 + [
+            "_ZN3foo4bar%dEv" % (i % 10), "_ZN4core3fmt5Write9write_fmt17h%016xE" % (0x1234500 + i), "ZN4core3fmt5Write9write_fmt17h%016xE" % (0x7654300 + i),
+            "_RNvCs%d_5hello4main" % (1000 + i), "RNvCs%d_5hello4main" % (2000 + i), "camlStdlib__List__map_%d" % (100 + i), "camlFoo__bar_%d" % (200 + i),
+            "_ZN3foo3barC%dEv" % (1 + i % 2), "__ZN3foo4baz%dEv" % (i % 10)])
+        if name in used_names:
+            name = "fn_%d_%d" % (k, i)
+        used_names.add(name)
         if kind != "local":
             asm.append(".globl %s" % name)
         if kind != "notype":
